@@ -70,6 +70,15 @@ def run(ctx):
             for t in ((-a, b, c), (a, -b, c), (a, b, -c)):
                 if t not in box and t not in SUPPORTED:
                     box.append(t)
+        # components that collide with a supported triple if major/minor/patch were folded into one number in some
+        # radix (minor * R + patch, major * R + minor, ...): 2.20.102 ~ 2.21.2 for R = 100, 1.5.266 ~ 1.6.10 for R = 256, ...
+        for (a, b, c) in list(SUPPORTED):
+            for R in (10, 16, 32, 64, 100, 128, 256, 1000, 1024, 4096, 10000, 65536):
+                for t in ((a, b - 1, c + R), (a, b + 1, c - R), (a - 1, b + R, c), (a + 1, b - R, c), (a - 1, b, c + R * R), (a, b - 2, c + 2 * R),
+                          (a - 1, b + R - 1, c + R)):
+                    if t not in SUPPORTED and t not in box:
+                        box.append(t)
+        ctx.extra["triples_outside_the_box"] = len(box) - 600
         loads = []
         meta = {}
         n = 0
